@@ -359,7 +359,13 @@ def do(op: dict) -> str:
                 from hydra.utils import instantiate
                 from omegaconf import OmegaConf
                 tmpd = _tf.mkdtemp(prefix="mdpaxv_c20_")
-                first = cls(PCls(**pkw), **dict(params, checkpoint_dir=tmpd, checkpoint_frequency=1))
+                if route == "yaml_inst_cfg":
+                    # a problem instance together with a configuration object that (still) names another problem, e.g. one reused from an
+                    # earlier solver: the instance is the problem, and the saved file must describe the instance
+                    other = dict(pkw, **op["problem"].get("other_kwargs", {}))
+                    first = cls(PCls(**pkw), config=cls.Config(problem=PCls.Config(**other), **dict(params, checkpoint_dir=tmpd, checkpoint_frequency=1)))
+                else:
+                    first = cls(PCls(**pkw), **dict(params, checkpoint_dir=tmpd, checkpoint_frequency=1))
                 cfg = OmegaConf.load(os.path.join(tmpd, "config.yaml"))
                 cfg.checkpoint_frequency = params.get("checkpoint_frequency", 0)
                 sv = instantiate(cfg)
